@@ -26,6 +26,13 @@ def apply_history(m, history):
     for op in history:
         if op[0] == 'sel':
             m.set_population_parameters([list(p) for p in op[1]])
+        elif op[0] == 'badsel':
+            # a selection naming a parameter / dimension that does not exist is
+            # refused and leaves the model as it was
+            try:
+                m.set_population_parameters([list(p) for p in op[1]])
+            except (IndexError, ValueError):
+                pass
         elif op[0] == 'dims':
             m.set_dim_names(op[1])
         elif op[0] == 'covnames':
@@ -170,6 +177,27 @@ def w_cov(case):
                      'underlying model at vartheta_i of covariate row i (%s)' % lab,
                      'expected': exp_s, 'observed': smp,
                      'behaviour': 'sample_rows'})
+    # individuals with EQUAL covariates are still separate draws: under the generic
+    # script every sample is fed by its own base variates (integer seed and generator)
+    if inner['kind'] != 'P':
+        same_rows = np.repeat(cov[:1], 3, axis=0)
+        for sd_ in (5, 'generator'):
+            with Seam(Script()) as seam_e:
+                sd_arg = np.random.default_rng(5) if sd_ == 'generator' else sd_
+                smp_e = np.asarray(m.sample(top_arg(), n_samples=3, seed=sd_arg,
+                                            covariates=same_rows.copy()),
+                                   dtype=float)
+                used = [(s_, i_) for s_, i_, k_, c_ in seam_e.log if k_ != 'i']
+            ntr += 1
+            if len(set(used)) != len(used) or any(
+                    np.array_equal(smp_e[a_], smp_e[b_])
+                    for a_ in range(3) for b_ in range(a_ + 1, 3)):
+                viol.append({'sub': 'sample_equal_cov', 'message': 'individuals '
+                             'with equal covariates are not separate draws (seed '
+                             '%s): a base variate is used for several of them (%s)'
+                             % (sd_, lab), 'expected': 'pairwise different rows',
+                             'observed': smp_e, 'behaviour': 'sample_equal_cov'})
+                break
     # the caller re-uses and modifies its arrays in place between evaluations: the
     # same array objects, first with covariates zeroed, then with a parameter moved
     cov_obj, top_obj = cov.copy(), top.copy()
@@ -463,6 +491,22 @@ def build(tier, seed):
                 final_sel = s2 if any(o[0] == 'sel' for o in h_) else None
                 hist.append(make_case(inner, 2, final_sel, 2, seed, history=h_,
                                       dim_names=dn_, cov_names=cn_))
+    # refused selections (parameter or dimension index out of range) in between
+    for k in ('G', 'LNnc', 'P'):
+        inner = popbuild.elem(k, 2)
+        ppd = rp.per_dim(inner)
+        sels = [s for f, s in selections(ppd, 2) if f != 'dup'][::3]
+        bads = [[[ppd, 0]], [[0, 2]], [[0, 0], [ppd + 3, 1]]]
+        for bad in bads:
+            hist.append(make_case(inner, 2, None, 2, seed,
+                                  history=[['badsel', bad]]))
+            for s2 in sels:
+                hist.append(make_case(inner, 2, s2, 2, seed,
+                                      history=[['sel', s2], ['badsel', bad]]))
+                hist.append(make_case(
+                    inner, 1, s2, 2, seed, history=[
+                        ['dims', ['a', 'b']], ['sel', s2], ['badsel', bad]],
+                    dim_names=['a', 'b']))
     # LinearCovariateModel alone
     for ppd, d in ((2, 1), (2, 2), (1, 2), (2, 3)):
         for n_cov in (1, 2):
@@ -546,3 +590,8 @@ META = {
     'level_note': 'Exhaustive over selections within n_dim<=2; generic values. '
                   'The linear map vartheta_i is computed by the reference.',
 }
+META['level_text'] += (
+    ' Also: compositions of two covariate sub-models reading different covariate co'
+    'lumns (transform, density, column-wise response), histories with refused selec'
+    'tions and with names given and taken back, individuals with equal covariates a'
+    's separate draws.')
